@@ -345,6 +345,43 @@ func (env *Env) evalCall(c *ast.CallExpr) *Val {
 			env.fail(c, "builtin "+b.Name())
 		}
 	}
+	// slices.Contains(TABLE, x) over a slice literal (a local one or the initialiser of a package-level variable
+	// that is assigned nowhere else): membership in a finite set of constants
+	if isFunc(info, c, "slices", "Contains") && len(c.Args) == 2 {
+		var lit *ast.CompositeLit
+		lpkg := env.Pkg
+		switch a := ast.Unparen(c.Args[0]).(type) {
+		case *ast.CompositeLit:
+			lit = a
+		case *ast.Ident, *ast.SelectorExpr:
+			var id *ast.Ident
+			if i, ok := a.(*ast.Ident); ok {
+				id = i
+			} else {
+				id = a.(*ast.SelectorExpr).Sel
+			}
+			if v, ok := info.Uses[id].(*types.Var); ok {
+				if init, ipkg := env.P.pkgVarInit(v); init != nil {
+					if cl, ok := ast.Unparen(init).(*ast.CompositeLit); ok {
+						lit, lpkg = cl, ipkg
+					}
+				}
+			}
+		}
+		if lit != nil {
+			want := env.eval(c.Args[1])
+			if want == nil || want.C == nil {
+				env.fail(c, "membership test of a non-constant")
+			}
+			le := env.child(lpkg)
+			for _, el := range lit.Elts {
+				if v := le.eval(el); v != nil && v.C != nil && constant.Compare(v.C, token.EQL, want.C) {
+					return boolVal(true)
+				}
+			}
+			return boolVal(false)
+		}
+	}
 	fn, _ := typeutil.Callee(info, c).(*types.Func)
 	if fn == nil {
 		env.fail(c, "dynamic call")
